@@ -305,3 +305,18 @@ type boxedInfo struct {
 	typ types.Type
 	val Val
 }
+
+// havocSliceArg: an unspecified callee may overwrite the elements of a slice it is given
+// (Read(buf), rand.Shuffle, sort functions, ...).
+func (fc *FnCtx) havocSliceArg(st *State, a ssa.Value, av Val) {
+	t, ok := a.Type().Underlying().(*types.Slice)
+	if !ok || av.T.IsZero() || fc.TE.BV {
+		return
+	}
+	hv := fc.TE.ElemHeap(t.Elem())
+	arr := app(SInt, "sl_arr", av.T)
+	inner := arrayRange(hv.Sort)
+	cur := fc.heapGet(st, hv)
+	fresh := fc.S.Fresh("ext.elems", inner)
+	fc.heapSet(st, hv, Ite(Eq(arr, IntLit(0)), cur, Store(cur, arr, fresh)))
+}
